@@ -197,6 +197,16 @@ fn build(s: &Sx) -> Result<Exp, String> {
     })
 }
 
+/// VERIF_DRIVER_SLEEP_MS: wait that long before every further rendering of a compiled value (replay of witnesses in which
+/// time passes between two renderings)
+fn pause() {
+    if let Ok(v) = std::env::var("VERIF_DRIVER_SLEEP_MS") {
+        if let Ok(ms) = v.parse::<u64>() {
+            std::thread::sleep(std::time::Duration::from_millis(ms));
+        }
+    }
+}
+
 fn compile_report(exp: &Exp, opts: &RunOptions, mdt: &str, more: &[String], kv: &mut Vec<(&'static str, String)>) {
     let t0 = now();
     let compiled = catch_unwind(AssertUnwindSafe(|| compile(exp, opts)));
@@ -217,6 +227,7 @@ fn compile_report(exp: &Exp, opts: &RunOptions, mdt: &str, more: &[String], kv: 
             let s1 = catch_unwind(AssertUnwindSafe(|| c.scheme(mdt)));
             match s1 {
                 Ok(s) => {
+                    pause();
                     let s2 = c.scheme(mdt);
                     kv.push(("scheme", s.clone()));
                     kv.push(("again", (s == s2).to_string()));
@@ -226,6 +237,7 @@ fn compile_report(exp: &Exp, opts: &RunOptions, mdt: &str, more: &[String], kv: 
             // further device paths: rendered on the SAME compiled value, in order (render histories)
             const HIST: [&str; 4] = ["hist1", "hist2", "hist3", "hist4"];
             for (i, m) in more.iter().take(4).enumerate() {
+                pause();
                 match catch_unwind(AssertUnwindSafe(|| c.scheme(m.as_str()))) {
                     Ok(s) => kv.push((HIST[i], s)),
                     Err(p) => kv.push(("panic", payload(p))),
